@@ -180,8 +180,101 @@ fn part_c(rep: &Reporter, args: &Args) {
     });
 }
 
+/// Part D: the idle timer on the real clock. Real Core::listen over TLS on loopback with T = 1 s, HTTP/1.1 CONNECT
+/// tunnels to an echo destination: a tunnel that falls silent must be closed within [T - 0.3 s, 2T + 2.5 s] of its
+/// last transfer, a tunnel that echoes one byte every T/2 for 4T must stay open.
+fn part_d(rep: &Reporter, args: &Args) {
+    const T_MS: u64 = 1000;
+    let dir = env::work_dir(&args.root, "c14d");
+    let rt = env::rt_multi(4);
+    rt.block_on(async {
+        let hosts = Hosts { main: vec![("main.test".into(), vec![])], ..Default::default() };
+        let ep = start_endpoint(&dir, "127.0.0.1", &hosts, None, vec![], (true, true, false), move |b| b.allow_private_network_connections(true).tcp_connections_timeout(Duration::from_millis(T_MS))).await;
+        let echo = tokio::net::TcpListener::bind("127.0.0.1:0").await.expect("bind");
+        let target = echo.local_addr().unwrap().to_string();
+        tokio::spawn(async move {
+            loop {
+                let Ok((mut s, _)) = echo.accept().await else { continue };
+                tokio::spawn(async move { let mut b = vec![0u8; 4096]; loop { match s.read(&mut b).await { Ok(0) | Err(_) => break, Ok(n) => { if s.write_all(&b[..n]).await.is_err() { break; } } } } });
+            }
+        });
+        // (name, echoed bytes before falling silent, period of the keep-alive traffic in ms (0 = none), duration of that traffic)
+        let kinds: Vec<(&str, usize, u64, u64)> = vec![("silent from the start", 0, 0, 0), ("silent after some traffic", 3, 0, 0), ("one byte echoed every T/2 for 4T, then silent", 0, T_MS / 2, 4 * T_MS)];
+        let mut js = vec![];
+        for round in 0..args.qt(2, 8) {
+            for (name, warmup, period, active_for) in kinds.clone() {
+                let (addr, target) = (ep.addr, target.clone());
+                js.push(tokio::spawn(async move {
+                    // returns (name, round, Err(inconclusive reason) | Ok((closed while active?, closed after ms since the last transfer | None = still open at the end)))
+                    let out = tls_connect(addr, Some("main.test"), &[b"http/1.1"], Duration::from_secs(10)).await;
+                    let Some(mut st) = out.stream else { return (name, round, Err("tls connect failed".to_string())) };
+                    if st.write_all(format!("CONNECT {} HTTP/1.1\r\nHost: {}\r\n\r\n", target, target).as_bytes()).await.is_err() { return (name, round, Err("request not written".into())); }
+                    let mut buf = vec![0u8; 4096];
+                    let mut head = vec![];
+                    loop {
+                        match tokio::time::timeout(Duration::from_secs(10), st.read(&mut buf)).await {
+                            Ok(Ok(n)) if n > 0 => { head.extend_from_slice(&buf[..n]); if head.windows(4).any(|w| w == b"\r\n\r\n") { break; } }
+                            _ => return (name, round, Err("no response head".into())),
+                        }
+                    }
+                    if !head.starts_with(b"HTTP/1.1 200") { return (name, round, Err("CONNECT not answered 200".into())); }
+                    let mut last = std::time::Instant::now();
+                    let mut max_gap = 0u64;
+                    let echo_once = |b: u8| b;
+                    for k in 0..warmup {
+                        if st.write_all(&[echo_once(k as u8)]).await.is_err() { return (name, round, Ok((true, Some(0)))); }
+                        match tokio::time::timeout(Duration::from_secs(2), st.read(&mut buf)).await { Ok(Ok(n)) if n > 0 => {} _ => return (name, round, Ok((true, Some(0)))) }
+                        last = std::time::Instant::now();
+                        tokio::time::sleep(Duration::from_millis(50)).await;
+                    }
+                    if period > 0 {
+                        let until = std::time::Instant::now() + Duration::from_millis(active_for);
+                        while std::time::Instant::now() < until {
+                            tokio::time::sleep(Duration::from_millis(period)).await;
+                            let gap = last.elapsed().as_millis() as u64;
+                            max_gap = max_gap.max(gap);
+                            if st.write_all(&[7]).await.is_err() { return (name, round, if max_gap > T_MS - 150 { Err(format!("keep-alive gap of {} ms (scheduler lag)", max_gap)) } else { Ok((true, Some(gap))) }); }
+                            match tokio::time::timeout(Duration::from_secs(2), st.read(&mut buf)).await {
+                                Ok(Ok(n)) if n > 0 => {}
+                                _ => return (name, round, if max_gap > T_MS - 150 { Err(format!("keep-alive gap of {} ms (scheduler lag)", max_gap)) } else { Ok((true, Some(gap))) }),
+                            }
+                            last = std::time::Instant::now();
+                        }
+                    }
+                    // silence: the endpoint has to close
+                    match tokio::time::timeout(Duration::from_millis(2 * T_MS + 2500), async { loop { match st.read(&mut buf).await { Ok(0) | Err(_) => break, Ok(_) => {} } } }).await {
+                        Ok(()) => (name, round, Ok((false, Some(last.elapsed().as_millis() as u64)))),
+                        Err(_) => (name, round, Ok((false, None))),
+                    }
+                }));
+            }
+        }
+        for j in js {
+            let Ok((name, round, r)) = j.await else { continue };
+            rep.evals(1);
+            rep.distinct(common::fnv(format!("idle-real|{}|{}", name, round).as_bytes()));
+            match r {
+                Err(why) => rep.inconclusive(&format!("real-time idle timer: {}", why.chars().take(60).collect::<String>())),
+                Ok((while_active, after)) => {
+                    let w = json!({"kind":"idle-timer-real-clock","pattern":name,"T_ms":T_MS,"closed_ms_after_last_transfer":after,"closed_while_traffic_was_flowing":while_active});
+                    if while_active { rep.violation("real clock: tunnel transferring data every T/2 was closed", w); }
+                    else {
+                        match after {
+                            None => rep.violation("real clock: idle tunnel not closed within 2T (+ 2.5 s margin) after its last transfer", w),
+                            Some(ms) if ms + 300 < T_MS => rep.violation("real clock: tunnel closed less than T after its last transfer", w),
+                            Some(_) => rep.tally(&format!("real clock: '{}' closed within [T, 2T + margin] of the last transfer", name), 1),
+                        }
+                    }
+                }
+            }
+        }
+        ep.task.abort();
+    });
+}
+
 pub fn run_parts(rep: &Reporter, args: &Args) {
     part_b(rep, args);
     part_c(rep, args);
-    rep.set("parts", json!({"A_idle_timer": "exercised (virtual time)", "B_establishment_timeout": "exercised (virtual time, scripted connector with chosen completion time, H1 + H2)", "C_tls_handshake_timeout": "exercised (real time on loopback, T_hs = 1.5 s, bands [T/2, 2T + 2.5 s])"}));
+    part_d(rep, args);
+    rep.set("parts", json!({"D_idle_timer_real_clock": "exercised (real Core::listen over TLS on loopback, T = 1 s: silent tunnels closed within [T - 0.3 s, 2T + 2.5 s] of the last transfer, tunnels echoing a byte every T/2 stay open)", "A_idle_timer": "exercised (virtual time)", "B_establishment_timeout": "exercised (virtual time, scripted connector with chosen completion time, H1 + H2)", "C_tls_handshake_timeout": "exercised (real time on loopback, T_hs = 1.5 s, bands [T/2, 2T + 2.5 s])"}));
 }
